@@ -489,6 +489,13 @@ def run(tier):
               'created before the scanning loop, at module level or by a '
               'memoised constructor is placed into the parsed input',
               'the very first input a strategy works on has repeated identities; nothing re-duplicates it before the first round')
+    sub12b = Check('C12', 'other', tier, [], [])
+    chk.guard(c12.rule_r4, sub12b, prog)
+    chk.guard(c12.rule_r11, sub12b, prog)
+    chk.adopt('C13.R8', 'fresh identities are fresh: one shared counter of '
+              'the width the pickle format carries, incremented under its '
+              'lock, never wrapping within the id field (shared with C12.R4 '
+              'and C12.R11)', sub12b)
     extra = None
     if tier == 'thorough':
         from .. import selftest
